@@ -17,7 +17,7 @@ func init() {
 	register("C04", checkC04)
 	describe("C04", Meta{
 		Technique: "must-dominance of handshake guards on go/cfg for every simulator function that touches the valid/received lines, must-pass-through of the deferred-release step in VM.Step, and effect confinement of deferred-instruction closures (go/ssa)",
-		Claim:     "Decides the structural 4-phase-handshake clauses of C04 on the simulator side: received is raised only while valid is seen high and lowered only while it is seen low; a producer withdraws valid and advances only after it has seen received; a consumer that raises received either registers a deferred release or lowers it itself; the processor evaluates its deferred releases on every tick (on every normally returning path of VM.Step, whatever the opcode delay state); a deferred release acts on the VM it is executed for, not on a captured one, and is registered under a name computed from the port index it captures (DEFKEY: the registry keeps one pending entry per name); an instruction writes valid/received lines only element by element at the port it names, never with clear/copy/whole-array or all-ports loops (HS6). Necessary conditions for exactly-once delivery; the dynamic protocol (e.g. the documented re-sampling race that duplicates values), fan-out timing and the HDL side are not decided.",
+		Claim:     "Decides the structural 4-phase-handshake clauses of C04 on the simulator side: received is raised only while valid is seen high and lowered only while it is seen low; a producer withdraws valid and advances only after it has seen received; a consumer that raises received either registers a deferred release or lowers it itself; the processor evaluates its deferred releases on every tick (on every normally returning path of VM.Step, whatever the opcode delay state); a deferred release acts on the VM it is executed for, not on a captured one, and is registered under a name computed from the port index it captures (DEFKEY: the registry keeps one pending entry per name); an instruction writes valid/received lines only element by element at the port it names, never with clear/copy/whole-array or all-ports loops (HS6). (FRESH) in bondmachine.VM.Step a per-endpoint table derived from another (through Links or a local map) is never read after its source has been rewritten without the derivation in between, over two consecutive ticks; HS6 also covers VM methods handed to the deferred registry as method values. Necessary conditions for exactly-once delivery; the dynamic protocol (e.g. the documented re-sampling race that duplicates values), fan-out timing and the HDL side are not decided.",
 		Note:      "The handshake users are discovered from the code (every function of pkg/procbuilder that indexes InputsValid/InputsRecv/OutputsValid/OutputsRecv), not listed. Index identity is by expression text within one function.",
 		DesignRef: "DESIGN.md §2 C04",
 	})
@@ -385,6 +385,7 @@ func checkC04(r *core.Run) {
 
 	// ---- DEFERRED: closures handed to AddDeferredInstruction act on their own parameter
 	deferredClosureConfinement(r, prog, "C04")
+	c04Fresh(r, prog)
 }
 
 // deferredClosureConfinement: every function value registered through AddDeferredInstruction
